@@ -42,7 +42,10 @@ from funsor.ops.tracer import trace_function, is_variable
 from funsor.ops.op import trace_ops
 
 EXACT_UN = ["neg", "abs"]
-TRANS_UN = ["exp", "sigmoid", "tanh", "log1p"]
+TRANS_UN = ["exp", "sigmoid", "tanh", "log1p", "log", "atanh", "sqrt"]
+# partner applied DIRECTLY on top of an op with probability 0.35 (op . inverse chains; filled at import from the
+# `.inv` attributes of the TransformOps and from ops.UNARY_INVERSES, see inverse_pairs())
+WILD_VALS = [-30.0, -3.0, 3.0, 18.0, 40.0, 800.0, -800.0, 1e-3, -1.0, 1.0]
 EXACT_BIN = ["add", "sub", "mul", "max", "min"]
 OTHER_BIN = ["truediv"]
 NAMES = ["x", "y", "z", "w", "a_b", "i", "j", "k", "value", "V1", "x1", "u_v"]
@@ -110,6 +113,10 @@ def gen_spec(rng, tier, batched=False, names=None):
         if r < 0.25:
             op = rng.choice(EXACT_UN + (TRANS_UN if trans else []))
             nodes.append(["un", op, pick()])
+            partner = dict(inverse_pairs()).get(op)
+            if partner and rng.random() < 0.35:
+                scal.append(len(nodes) - 1)
+                nodes.append(["un", partner, len(nodes) - 1])          # op . inverse, directly
         elif r < 0.9:
             op = rng.choice(EXACT_BIN + EXACT_BIN + OTHER_BIN)
             a, b = pick(), pick()
@@ -137,12 +144,13 @@ def gen_spec(rng, tier, batched=False, names=None):
             tup.append(len(nodes) - 1)
         root = tup[-1]
     interp = rng.choice(["reflect", "reflect", "lazy"])
-    return {"nodes": nodes, "root": root, "interp": interp, "n": n}
+    return {"nodes": nodes, "root": root, "interp": interp, "n": n, "wild": trans and rng.random() < 0.5}
 
 
 def gen_data(rng, spec):
     data = {}
     n = spec["n"]
+    VALS = globals()["VALS"] + (WILD_VALS if spec.get("wild") else [])
     for nd in spec["nodes"]:
         if nd[0] == "var":
             _, name, kind, size = nd
@@ -200,7 +208,8 @@ def build(spec):
 
 
 NP_UN = {"neg": np.negative, "abs": np.abs, "exp": np.exp, "tanh": np.tanh, "log1p": np.log1p,
-         "sigmoid": lambda x: 1.0 / (1.0 + np.exp(-x))}
+         "sigmoid": lambda x: 1.0 / (1.0 + np.exp(-x)), "log": np.log, "atanh": np.arctanh,
+         "reciprocal": np.reciprocal, "sqrt": np.sqrt}
 NP_BIN = {"add": np.add, "sub": np.subtract, "mul": np.multiply, "max": np.maximum, "min": np.minimum,
           "truediv": np.true_divide}
 
@@ -292,6 +301,26 @@ class Ser:
             s = "(t" + "".join(" " + self.expr(a) for a in f.args) + ")"
         else:
             raise Decline(f"outside the model's fragment: {type(f).__name__}")
+        self.memo[key] = s
+        return s
+
+    def src(self, f):
+        """the expression BEFORE lowering: Contraction without reduced variables as (k op E…)"""
+        key = ("src", id(f))
+        if key in self.memo:
+            return self.memo[key]
+        if isinstance(f, Contraction):
+            if f.reduced_vars:
+                raise Decline("contraction with reduced variables")
+            s = f"(k {f.bin_op.__name__}" + "".join(" " + self.src(a) for a in f.terms) + ")"
+        elif isinstance(f, Unary):
+            s = f"(u {f.op.__name__} {self.src(f.arg)})"
+        elif isinstance(f, Binary):
+            s = f"(b {f.op.__name__} {self.src(f.lhs)} {self.src(f.rhs)})"
+        elif isinstance(f, Tuple):
+            s = "(t" + "".join(" " + self.src(a) for a in f.args) + ")"
+        else:
+            s = self.expr(f)
         self.memo[key] = s
         return s
 
@@ -513,7 +542,7 @@ def check_case(ctx, spec, data, use_driver=True, stream="clean"):
         return False
     reach = reachable_kinds(spec)
     rk = lambda kind: any(spec["nodes"][i][0] == kind for i in reach)
-    has_trans = any(spec["nodes"][i][0] == "un" and spec["nodes"][i][1] in TRANS_UN for i in reach)
+    has_trans = any(spec["nodes"][i][0] == "un" and spec["nodes"][i][1] not in EXACT_UN for i in reach)
     # exact comparison only where float arithmetic is exact whatever the evaluation order (dyadic data under
     # add/sub/neg/abs/max/min); eager funsor may evaluate x/y as x*reciprocal(y) and reassociate products
     inexact = has_trans or any(spec["nodes"][i][0] in ("bin", "contr") and spec["nodes"][i][1] in ("mul", "truediv")
@@ -522,10 +551,21 @@ def check_case(ctx, spec, data, use_driver=True, stream="clean"):
     batched = rk("btensor")
     with np.errstate(all="ignore"):
         oracle = spec_eval(spec, npd_all)
+        # NaN and +-inf are VALUES the program must reproduce (nan == nan, inf == inf).  The only region kept
+        # out is a division whose divisor is 0 or non-finite (eager funsor evaluates x/y through a clamped
+        # reciprocal there, numpy's true_divide gives inf/nan: the two sides of the property are not comparable)
         for i in reach:
-            if not isinstance(oracle[i], tuple) and not (np.all(np.isfinite(oracle[i])) and np.all(np.abs(oracle[i]) < 1e100)):
-                ctx.count("skip:outside-domain(non-finite intermediate)")
-                return False
+            nd = spec["nodes"][i]
+            divisors = []
+            if nd[0] == "bin" and nd[1] == "truediv":
+                divisors = [oracle[nd[3]]]
+            elif nd[0] == "un" and nd[1] == "reciprocal":
+                divisors = [oracle[nd[2]]]
+            for dv in divisors:
+                if not (np.all(np.isfinite(dv)) and np.all(dv != 0) and np.all(np.abs(dv) > 1e-150)):
+                    ctx.count("skip:division-by-zero-or-nonfinite")
+                    return False
+        nonfinite = any(not isinstance(oracle[i], tuple) and not np.all(np.isfinite(oracle[i])) for i in reach)
         # ---- compile -------------------------------------------------------------------------
         try:
             program = compile_funsor(expr)
@@ -548,10 +588,14 @@ def check_case(ctx, spec, data, use_driver=True, stream="clean"):
                 expected = extract_data(reinterpret(r))
                 ctx.count("spec:needed-reinterpret")
             if not same_value(expected, oracle[spec["root"]], 1e-9):
-                # funsor's own eager evaluation disagrees with plain numpy on the spec: not C18's business
-                # (C01 checks eager evaluation); keep it out of the comparison but make it visible
-                ctx.count("skip:eager-value-ne-numpy-oracle")
+                # funsor's own interpreter normalises while substituting (cnf.unary_log_exp cancels exp(log(x)) of
+                # a deferred argument, division goes through a clamped reciprocal): outside the ops' domains its
+                # value differs from the plain numpy meaning of the expression (exp(log(-1598.)) -> -1598., numpy
+                # nan).  That is C01/C02's subject; the two sides of C18 are only comparable where they agree.
+                ctx.count("skip:substitution-value-ne-numpy-oracle(interpreter normalised outside the domain)")
                 return False
+            if nonfinite:
+                ctx.count("has:nan-or-inf-value")
         except Decline:
             ctx.count("skip:lazy-result")
             return False
@@ -604,6 +648,12 @@ def check_case(ctx, spec, data, use_driver=True, stream="clean"):
                          python=snippet(nm, spec, data))
                 return True
             if not same_value(got, expected, tol):
+                if (nm == "as_code" and nonfinite
+                        and any(isinstance(c, (np.ndarray, np.generic)) for c in program.constants)):
+                    # a 0-d ndarray constant is printed as a python float, and funsor's scalar ops treat the
+                    # out-of-domain points differently from numpy (ops.log(-2.0) = -inf, np.log(-2.0) = nan)
+                    ctx.count("as_code:python-float-semantics-differs-outside-domain")
+                    continue
                 ctx.fail("input", f"C18.{nm}-ne-eval", witness=wit, got=jsonable(got), expected=jsonable(expected),
                          python=snippet(nm, spec, data))
                 return True
@@ -680,7 +730,11 @@ def model_tie(ctx, spec, data, wit, expr, program, npd, expected, bad, code):
         ctx.count("beyond-model:" + str(d)[:40])
         return True
     ins = "(" + " ".join(f'"{n}"' for n in program.inputs) + ")"
-    reqs = [f"C18 compile {e}", f"C18 compilewith {real_ord} {ins}", f"C18 inputs {e}"]
+    try:
+        src = ser.src(expr)
+    except Decline:
+        src = e
+    reqs = [f"C18 compile {e}", f"C18 compilewith {real_ord} {ins}", f"C18 inputs {e}", f"C18 lower {src}"]
     pos = positions(spec)
     per = []
     try:
@@ -690,7 +744,8 @@ def model_tie(ctx, spec, data, wit, expr, program, npd, expected, bad, code):
             if any(w is None for w in re.findall(r'" ([^)]*)\)', kw)) or "None" in kw:
                 raise Decline("non-finite input")
             per.append((p, len(reqs)))
-            reqs += [f"C18 eval {e} {cs} {kw}", f"C18 run {triple} {cs} {kw}", f"C18 exec {triple} {cs} {kw}"]
+            reqs += [f"C18 eval {e} {cs} {kw}", f"C18 run {triple} {cs} {kw}", f"C18 exec {triple} {cs} {kw}",
+                     f"C18 evalsrc {src} {cs} {kw}"]
         p0 = pos[0]
         cs0 = wire_consts(ser, p0)
         bad_at = len(reqs)
@@ -723,11 +778,15 @@ def model_tie(ctx, spec, data, wit, expr, program, npd, expected, bad, code):
     else:
         ctx.count("fidelity:model-compile-error")
     ctx.count("fidelity:program(real order)-" + ("same" if parse_sx(ans[1][3:]) == parse_sx(triple) else "DIFFERENT"))
+    ctx.count("fidelity:lower(model)-vs-real-lower-" + ("same" if parse_sx(ans[3][3:]) == parse_sx(e) else "DIFFERENT"))
     ctx.count("fidelity:inputs-order-" + ("same" if parse_sx(ans[2][3:]) == [Q(n) for n in program.inputs] else "DIFFERENT"))
     # gates
     exec_ok = "as_code:exec" if True else None
     for p, i in per:
-        ev, rn, ex = (parse_sx(a[3:]) for a in ans[i:i + 3])
+        ev, rn, ex, es = (parse_sx(a[3:]) for a in ans[i:i + 4])
+        # the real lowering, read by the Lean semantics with UNINTERPRETED transcendental ops, must denote the
+        # source expression (lower_denote): counted, a sound algebraic simplification would show up here too
+        ctx.count("fidelity:lean-eval(real lowered)-vs-evalSrc(source)-" + ("same" if es == ev else "DIFFERENT"))
         if isinstance(ev, list) and ev and ev[0] == "error":
             ctx.infra_errors.append(f"Lean eval failed: {ans[i]} for {reqs[i][:300]}")
             return False
@@ -1072,6 +1131,65 @@ def _param_stream(ctx, use_driver=True):
         if any(f.witness is not None for f in ctx.failures) or ctx.infra_errors:
             return
 
+
+# ---------------------------------------------------------------------------------------------
+# op . inverse chains (the lowering step must not "simplify" them: they are the identity only on the
+# principal domain) — enumerated from the ops' own `.inv` table at run time
+# ---------------------------------------------------------------------------------------------
+
+_INV = None
+
+
+def inverse_pairs():
+    """[(op name, inverse op name)] for every unary op with a registered inverse Op, both directions,
+    plus the self-inverse values of ops.UNARY_INVERSES (neg, reciprocal) and sqrt/abs-style partial inverses."""
+    global _INV
+    if _INV is None:
+        from funsor.ops.op import Op
+        pairs = []
+        for nm in sorted(dir(ops)):
+            o = getattr(ops, nm)
+            try:
+                inv = getattr(o, "inv", None) if isinstance(o, Op) and type(o).arity == 1 else None
+            except Exception:
+                inv = None
+            if isinstance(inv, Op) and getattr(ops, getattr(inv, "__name__", ""), None) is inv and o.__name__ == nm:
+                pairs.append((nm, inv.__name__))
+        for u in getattr(ops, "UNARY_INVERSES", {}).values():
+            if getattr(ops, u.__name__, None) is u:
+                pairs.append((u.__name__, u.__name__))
+        pairs.append(("abs", "abs"))
+        _INV = sorted(set(p for p in pairs if p[0] in NP_UN and p[1] in NP_UN))
+    return _INV
+
+
+INV_DATA = {"z": [-30.0, -3.0, -1.0, -0.5, 0.25, 0.75, 3.0, 18.0, 800.0],
+            "y": [40.0, 0.5, -18.0, 1.0, -0.25, 709.0, -710.0, 2.0, -1e-3]}
+
+
+def inverse_specs():
+    out = []
+    V = lambda nm: ["var", nm, "reals", 9]
+    for f, g in inverse_pairs():
+        for interp in ("reflect", "lazy"):
+            mk = lambda nodes, root: {"nodes": nodes, "root": root, "interp": interp, "n": 9}
+            fg = [V("z"), ["un", g, 0], ["un", f, 1]]                       # node 2 = f(g(z))
+            out.append((f"{f}.{g}:root", mk(fg, 2)))
+            out.append((f"{f}.{g}:middle", mk(fg + [["num", 2.0], ["bin", "mul", 2, 3], V("y"), ["bin", "add", 4, 5]], 6)))
+            out.append((f"{f}.{g}:shared-tuple", mk(fg + [["tuple", [2, 0]], ["tuple", [2, 1, 3]]], 4)))
+            out.append((f"{f}.{g}:triple", mk(fg + [["un", g, 2], ["bin", "sub", 3, 0]], 4)))
+            out.append((f"{f}.{g}:both", mk(fg + [V("y"), ["un", f, 3], ["un", g, 4], ["bin", "add", 2, 5]], 6)))
+            out.append((f"{f}.{g}:contr", mk(fg + [V("y"), ["contr", "add", [2, 3, 2]], ["un", f, 4], ["un", g, 5]], 6)))
+    return out
+
+
+def inverse_stream(ctx, use_driver=True):
+    for label, spec in inverse_specs():
+        check_case(ctx, spec, dict(INV_DATA), use_driver=use_driver, stream="inverse:" + label.split(":")[1])
+        ctx.count("inverse-chain:" + label.split(":")[0])
+        if any(f.witness is not None for f in ctx.failures) or ctx.infra_errors:
+            return
+
 # ---------------------------------------------------------------------------------------------
 # tracer
 # ---------------------------------------------------------------------------------------------
@@ -1355,6 +1473,8 @@ def correspond(ctx):
         if ctx.failures or ctx.infra_errors:
             break
     if not (ctx.failures or ctx.infra_errors):
+        inverse_stream(ctx)
+    if not (ctx.failures or ctx.infra_errors):
         param_stream(ctx)
     nt = 200 if ctx.tier == "quick" else 3000
     for _ in range(nt):
@@ -1388,4 +1508,7 @@ def search(ctx, broken):
         check_trace(ctx, gen_trace_spec(rng, "thorough"), use_driver=False)
         if have():
             return
+    inverse_stream(ctx, use_driver=False)
+    if have():
+        return
     param_stream(ctx, use_driver=False)
